@@ -630,12 +630,20 @@ func (c *sentinelClient) listWatch(cc conn) (master string, replica string, sent
 			case "+switch-master":
 				m := strings.SplitN(event.Message, " ", 5)
 				if m[0] == c.sOpt.Sentinel.MasterSet {
-					c.switchTargetRetry(net.JoinHostPort(m[3], m[4]), true)
+					if c.replica || c.rOpt != nil {
+						c.refreshRetry() // the promoted node may be the one serving replica traffic: pick replicas again too
+					} else {
+						c.switchTargetRetry(net.JoinHostPort(m[3], m[4]), true)
+					}
 				}
 			case "+reboot":
 				m := strings.SplitN(event.Message, " ", 7)
 				if m[0] == "master" && m[1] == c.sOpt.Sentinel.MasterSet {
-					c.switchTargetRetry(net.JoinHostPort(m[2], m[3]), true)
+					if c.replica || c.rOpt != nil {
+						c.refreshRetry()
+					} else {
+						c.switchTargetRetry(net.JoinHostPort(m[2], m[3]), true)
+					}
 				} else if (c.replica || c.rOpt != nil) && m[0] == "slave" && m[5] == c.sOpt.Sentinel.MasterSet {
 					c.refreshRetry()
 				}
